@@ -7,7 +7,7 @@
 uint64_t hx_cost_blocks = 0;
 uint64_t hx_cost_bytes = 0;
 uint64_t hx_cost_buffered = 0;   /* sum over data calls of the bytes the parser had set aside before the call */
-int hx_cost_on = 0;      /* metering right now */
+__thread int hx_cost_on = 0;      /* metering right now */
 int hx_cost_armed = 0;   /* --cost given: the driver turns metering on around each API call */
 
 #ifdef HX_COV
